@@ -1,6 +1,7 @@
 from __future__ import annotations
 
 import functools
+import itertools
 import os
 import uuid
 import warnings
@@ -1110,13 +1111,19 @@ class _HLGExprSequence(Expr):
             return None
         from dask.highlevelgraph import HighLevelGraph
 
-        groups = toolz.groupby(
-            lambda x: x.low_level_optimizer if isinstance(x, HLGExpr) else None,
+        # Only neighbouring operands are merged: the results are handed back in the
+        # order of the operands of this sequence, so collections that share an
+        # optimizer but are separated by a collection of another kind must stay
+        # where they are (grouping all of them moved their results in front of
+        # the collection in between).
+        groups = itertools.groupby(
             self.operands,
+            key=lambda x: x.low_level_optimizer if isinstance(x, HLGExpr) else None,
         )
         exprs = []
         changed = False
-        for optimizer, group in groups.items():
+        for optimizer, group in groups:
+            group = list(group)
             if len(group) > 1:
                 graphs = [expr.hlg for expr in group]
 
